@@ -314,7 +314,7 @@ def cov_matrix(ctx: Ctx) -> List[Violation]:
         a, b = sname(pre_v), sname(post_v)
         if vid in addressed:
             kind = addressed[vid][1]
-            won = applied.get(vid, {}).get("instruction_type", "") == kind + "Instruction"
+            won = applied.get(vid, {}).get("instruction_type", "") == {"Pool": "DispatchPoolingTrip"}.get(kind, kind) + "Instruction"
             ctx.cov[f"instr:{a}:{kind}:{b}" + ("" if won else ":overridden")] += 1
         elif vid in applied:
             ctx.cov[f"auto:{a}:{applied[vid]['instruction_type'][:-11]}:{b}"] += 1
